@@ -417,6 +417,9 @@ func main() {
 	maxRuns := flag.Int("runs", 0, "maximum number of runs (default by tier)")
 	flag.BoolVar(&verbose, "v", false, "verbose")
 	flag.StringVar(&repoDir, "repo", "/repo", "frp tree")
+	if d := os.Getenv("VERIF_DIR"); d != "" { // a snapshot of /verif (background sweeps): everything is read and written there
+		verifDir = d
+	}
 	buildOnly := flag.Bool("build-only", false, "only build")
 	genc := flag.String("gen-certs", "", "write test certificates to this directory and exit")
 	flag.IntVar(&workers, "j", runtime.NumCPU(), "parallel run processes")
